@@ -147,6 +147,7 @@ def main():
 
     # ---- aggregate
     mon, skips, events, margins, kf_counts = {}, {}, {}, {}, {}
+    cover = {}
     nontriv = set()
     viols, samples = [], []
     cases_run = n_total = 0
@@ -163,6 +164,10 @@ def main():
             margins[k] = max(margins.get(k, 0), v)
         for k, v in r.get('kf_counts', {}).items():
             kf_counts[k] = kf_counts.get(k, 0) + v
+        for fn, c in r.get('cover', {}).items():
+            e = cover.setdefault(fn, {'hit': set(), 'lines': set()})
+            e['hit'].update(c['hit'])
+            e['lines'].update(c['lines'])
         nontriv.update(r['nontriv'])
         viols.extend(r['violations'])
         for s in r['samples']:
@@ -248,6 +253,10 @@ def main():
             'events': dict(sorted(events.items())),
             'worst_ratio_to_tolerance': {k: float(f'{v:.3g}')
                 for k, v in sorted(margins.items())},
+            'lines_hit': {fn: [len(c['hit']), len(c['lines'])]
+                for fn, c in sorted(cover.items())},
+            'lines_never_hit': {fn: sorted(c['lines'] - c['hit'])
+                for fn, c in sorted(cover.items()) if c['lines'] - c['hit']},
             'known_findings_seen': {k: kf_counts.get(k, len(v))
                 for k, v in listed.items()},
             'verdict': 'violated' if unlisted else
